@@ -39,5 +39,7 @@ string error_handler (mapping m, int caught) {
     s += (i ? "|" : "") + tr[i]["function"] + "@" + tr[i]["program"] + "@" + oname(tr[i]["object"]) + "@"
        + tr[i]["file"] + "@" + tr[i]["line"];
   VL(s);
+  // errors raised inside the error handler itself (the driver's in_mudlib_error_handler paths)
+  if (stringp(m["error"]) && strsrch(m["error"], "c18_eh_fail") >= 0) error("c18 error inside the error handler");
   return "";
 }
